@@ -45,6 +45,7 @@ def setup(scratch):
 
 
 def outside_state():
+    _ensure()
     out = []
     for dp, dn, fn in os.walk(_st["outside"]):
         for n in sorted(dn + fn):
@@ -52,8 +53,21 @@ def outside_state():
     return sorted(out)
 
 
+def _ensure():
+    """The framework tears the scratch directory down before it shrinks / replays a failing input:
+    re-create the templates in a private temporary directory (removed at exit) when needed."""
+    if os.path.isdir(_st.get("dir", "")) and os.path.isdir(_st["tmpl"]["bzr"]):
+        return
+    import atexit
+    import tempfile
+    d = tempfile.mkdtemp(prefix="verif-dirtree-", dir=os.environ.get("TMPDIR") or "/tmp")
+    atexit.register(shutil.rmtree, d, True)
+    setup(d)
+
+
 def new_tree(fmt):
     """A fresh empty working tree directory (copy of the template); returns its path."""
+    _ensure()
     _st["n"] += 1
     base = os.path.join(_st["dir"], "t%d" % _st["n"])
     shutil.copytree(_st["tmpl"][fmt], base, symlinks=True)
